@@ -57,6 +57,8 @@ THEOREMS = [
     "Opacus.C20.adaclip_empty_batch_counterexample",
     "Opacus.C20.adaclip_empty_batch_repaired",
     "Opacus.C20.adaclip_virtual_step_counterexample",
+    # the tie to the source: Generated/AdaClip.lean is re-translated from optimizers/adaclipoptimizer.py on every run
+    "Opacus.C20.generated_adaclip_eq_model",
 ]
 RULE = (
     "case = (implementation ∈ {AdaClipDPOptimizer direct / via PrivacyEngine, ghost adaptive engine}, σ, σ_b, η, γ, "
@@ -65,6 +67,7 @@ RULE = (
     "distinct by (implementation, configuration, batch sizes, skip pattern, per-step unclipped counts)"
 )
 TRUSTED = [
+    "the translator vharness/pytrans.py + props/c20_trans.py (Python `ast` -> Lean real arithmetic; subset in its docstring, anything else is reported as a broken tie) is trusted to render the noise split of AdaClipDPOptimizer.__init__ and update_max_grad_norm faithfully; both are also run against the model by the behavioural correspondence",
     "Andrew, Thakkar, McMahan, Ramaswamy 2021, Thm 1 (cited, not re-proved): releasing the clipped sum with noise multiplier σ_Δ and the centred unclipped count with std σ_b is as private as one Gaussian release with multiplier (σ_Δ⁻² + (2σ_b)⁻²)^(−1/2); the Lean theorems take this expression as the definition of the nominal σ of the combined release",
     "Float exp / sqrt / division in the driver vs torch.exp / Python float ** in the implementation: compared to 1e-9, not bit-for-bit",
     "the per-sample gradient norms are inputs of the model (read from the implementation after backward); their computation is C01/C02's subject",
@@ -586,7 +589,14 @@ def small_scope_cases():
     return out
 
 
+def regenerate(ctx):
+    from .. import regen
+    from . import c20_trans as T
+    regen.regenerate(ctx, T, "Opacus.Generated.AdaClip", "optimizers/adaclipoptimizer.py")
+
+
 def run(ctx):
+    regenerate(ctx)
     known = {f["key"] for f in ctx.findings if f.get("status") == "known"}
     with rig.default_dtype(torch.float64):
         variants = detect_variants(ctx)
